@@ -125,6 +125,10 @@ func ReadEnvironment(data json.RawMessage) (Environment, error) {
 	env := NewBuilder().Build().(*environment)
 	envelope := env.toEnvelope()
 
+	// unmarshal into a copy of the number format.. the default one is a package level value shared by all environments
+	numberFormat := *envelope.NumberFormat
+	envelope.NumberFormat = &numberFormat
+
 	if err := utils.UnmarshalAndValidate(data, envelope); err != nil {
 		return nil, err
 	}
